@@ -213,3 +213,150 @@ Proof.
   specialize (B1 p2 In2). specialize (B2 p1 In1).
   apply Rabs_le. lra.
 Qed.
+
+(** ** termination with a closed adjacency *)
+Lemma filter_length_lt {A : Type} (f g : A -> bool) : forall (l : list A) (y : A),
+  (forall x, In x l -> f x = true -> g x = true) ->
+  In y l -> g y = true -> f y = false ->
+  (length (filter f l) < length (filter g l))%nat.
+Proof.
+  assert (Hle : forall l : list A, (forall x, In x l -> f x = true -> g x = true) ->
+                       (length (filter f l) <= length (filter g l))%nat).
+  { induction l as [|a l IH]; intros Himp; cbn [filter]; [lia|].
+    assert (IH' : (length (filter f l) <= length (filter g l))%nat)
+      by (apply IH; intros; apply Himp; simpl; auto).
+    destruct (f a) eqn:Ef.
+    - rewrite (Himp a (or_introl eq_refl) Ef). simpl. lia.
+    - destruct (g a); simpl; lia. }
+  induction l as [|a l IH]; intros y Himp Hin Hg Hf; [destruct Hin|].
+  cbn [filter].
+  assert (Himp' : forall x, In x l -> f x = true -> g x = true) by (intros; apply Himp; simpl; auto).
+  destruct Hin as [->|Hin].
+  - rewrite Hf, Hg. specialize (Hle l Himp'). simpl. lia.
+  - specialize (IH y Himp' Hin Hg Hf).
+    destruct (f a) eqn:Ef.
+    + rewrite (Himp a (or_introl eq_refl) Ef). simpl. lia.
+    + destruct (g a); simpl; lia.
+Qed.
+
+Lemma filter_length_le {A : Type} (f : A -> bool) (l : list A) :
+  (length (filter f l) <= length l)%nat.
+Proof. induction l as [|a l IH]; simpl; [lia|]. destruct (f a); simpl; lia. Qed.
+
+Section Terminates.
+  Variables (d : V3R) (vs : list V3R) (conn : list (nat * list nat)).
+
+  (** projection of vertex [j] (0 for an invalid index) *)
+  Definition proj (j : nat) : R := match nth_error vs j with Some v => dot d v | None => 0 end.
+  (** the indices whose projection is strictly greater than that of [b] *)
+  Definition better (b : nat) : list nat :=
+    filter (fun j => if Rlt_dec (proj b) (proj j) then true else false) (seq 0 (length vs)).
+
+  Lemma better_le b : (length (better b) <= length vs)%nat.
+  Proof.
+    unfold better. pose proof (filter_length_le (fun j => if Rlt_dec (proj b) (proj j) then true else false) (seq 0 (length vs))) as H.
+    rewrite seq_length in H. exact H.
+  Qed.
+
+  Lemma better_decreases b b' :
+    (b' < length vs)%nat -> proj b < proj b' -> (length (better b') < length (better b))%nat.
+  Proof.
+    intros Hv Hlt. unfold better. apply filter_length_lt with (y := b').
+    - intros x _ H. destruct (Rlt_dec (proj b') (proj x)); [|discriminate].
+      destruct (Rlt_dec (proj b) (proj x)); auto. lra.
+    - apply in_seq. lia.
+    - destruct (Rlt_dec (proj b) (proj b')); auto; contradiction.
+    - destruct (Rlt_dec (proj b') (proj b')); auto; lra.
+  Qed.
+
+  Lemma climb_terminates_gen : conn_closed vs conn -> forall fuel b,
+    (b < length vs)%nat -> (length (better b) < fuel)%nat ->
+    exists i, climb fuel d vs conn b = ClimbOk i /\ (i < length vs)%nat.
+  Proof.
+    intros Hc. induction fuel as [|fuel IH]; intros b Hv Hm; [lia|].
+    cbn [climb].
+    destruct (Hc b Hv) as (nb & -> & Hnb).
+    destruct (scan_total d vs nb b false Hnb Hv) as (b' & m & Es). rewrite Es.
+    pose proof (scan_valid _ _ _ _ _ _ _ Es Hv) as Hv'.
+    destruct m; [|eauto].
+    apply IH; auto.
+    destruct (nth_error vs b) as [vb|] eqn:Eb; [|apply nth_error_None in Eb; lia].
+    destruct (scan_mono _ _ _ _ _ _ _ _ Es Eb) as (vb' & Eb' & _ & Hlt).
+    specialize (Hlt eq_refl eq_refl).
+    assert (Hp : proj b < proj b').
+    { unfold proj. rewrite Eb, Eb'. pose proof EPSILON10_R_pos. lra. }
+    pose proof (better_decreases b b' Hv' Hp). lia.
+  Qed.
+End Terminates.
+
+Theorem climb_terminates : forall (d : V3R) vs conn start,
+  conn_closed vs conn -> (start < length vs)%nat ->
+  exists i, climb (S (length vs)) d vs conn start = ClimbOk i /\ (i < length vs)%nat.
+Proof.
+  intros d vs conn start Hc Hv. apply climb_terminates_gen; auto.
+  pose proof (better_le d vs start). lia.
+Qed.
+
+(** ** non-vacuity: the octahedron with its edge graph satisfies the hypotheses *)
+Lemma EPSILON10_R_small : @EPSILON10 R ROps < / 8.
+Proof. unfold EPSILON10. cbn [cst ROps]. unfold Q2R. cbn. lra. Qed.
+
+Definition octa_vs : list V3R := [V 1 0 0; V (-1) 0 0; V 0 1 0; V 0 (-1) 0; V 0 0 1; V 0 0 (-1)].
+Definition octa_conn : list (nat * list nat) :=
+  [(0, [2; 3; 4; 5]); (1, [2; 3; 4; 5]); (2, [0; 1; 4; 5]); (3, [0; 1; 4; 5]);
+   (4, [0; 1; 2; 3]); (5, [0; 1; 2; 3])]%nat.
+
+Example LocalMaxGlobal_octahedron_nonvacuous :
+  LocalMaxGlobal (V 1 (/2) (/4)) octa_vs octa_conn 0 /\ conn_closed octa_vs octa_conn.
+Proof.
+  pose proof EPSILON10_R_small as He.
+  split.
+  - intros i vi (vi' & nb & Hvi' & Hnb & Hall) Hvi v Hin.
+    rewrite Hvi in Hvi'. injection Hvi' as <-.
+    destruct i as [|[|[|[|[|[|i]]]]]]; cbn in Hvi; try discriminate;
+      injection Hvi as <-; cbn in Hnb; injection Hnb as <-.
+    + (* index 0 is the global maximum *)
+      cbn in Hin. decompose [or] Hin; subst; try contradiction; vunfold; lra.
+    + specialize (Hall 2%nat (V 0 1 0)). cbn in Hall.
+      assert (X : dot (V 1 (/2) (/4)) (vsub (V 0 1 0) (V (-1) 0 0)) <= EPSILON10) by (apply Hall; auto).
+      vunfold. lra.
+    + specialize (Hall 0%nat (V 1 0 0)). cbn in Hall.
+      assert (X : dot (V 1 (/2) (/4)) (vsub (V 1 0 0) (V 0 1 0)) <= EPSILON10) by (apply Hall; auto).
+      vunfold. lra.
+    + specialize (Hall 0%nat (V 1 0 0)). cbn in Hall.
+      assert (X : dot (V 1 (/2) (/4)) (vsub (V 1 0 0) (V 0 (-1) 0)) <= EPSILON10) by (apply Hall; auto).
+      vunfold. lra.
+    + specialize (Hall 0%nat (V 1 0 0)). cbn in Hall.
+      assert (X : dot (V 1 (/2) (/4)) (vsub (V 1 0 0) (V 0 0 1)) <= EPSILON10) by (apply Hall; auto).
+      vunfold. lra.
+    + specialize (Hall 0%nat (V 1 0 0)). cbn in Hall.
+      assert (X : dot (V 1 (/2) (/4)) (vsub (V 1 0 0) (V 0 0 (-1))) <= EPSILON10) by (apply Hall; auto).
+      vunfold. lra.
+  - intros i Hi. cbn in Hi.
+    destruct i as [|[|[|[|[|[|i]]]]]]; try lia; cbn [lookup octa_conn Nat.eqb];
+      eexists; (split; [reflexivity|]); cbn; intros j Hj; decompose [or] Hj; subst; try contradiction; lia.
+Qed.
+
+(** totality of a query on a closed mesh (the hypotheses of [mesh_support_partial] are
+    satisfiable for every direction and every valid cached index) *)
+Theorem mesh_query_total (T : Pose R) vs conn shortcuts first_idx (d : V3R) :
+  conn_closed vs conn -> (first_idx < length vs)%nat ->
+  (forall j, In j shortcuts -> (j < length vs)%nat) ->
+  exists idx p, mesh_query (S (length vs)) T vs conn shortcuts first_idx d = Some (idx, p).
+Proof.
+  intros Hc Hv Hs. unfold mesh_query, hill_climb.
+  destruct (scan_total (mulTV (rot T) d) vs shortcuts first_idx false Hs Hv) as (b & m & Es).
+  rewrite Es. pose proof (scan_valid _ _ _ _ _ _ _ Es Hv) as Hb.
+  destruct (climb_terminates (mulTV (rot T) d) vs conn b Hc Hb) as (i & -> & Hi).
+  destruct (nth_error vs i) as [v|] eqn:Ev; [eauto|apply nth_error_None in Ev; lia].
+Qed.
+
+Example mesh_query_octahedron_nonvacuous :
+  exists idx p, mesh_query 7 (P ident (V 0 0 0)) octa_vs octa_conn [0; 2; 4; 1; 3; 5]%nat 3%nat (V 1 (/2) (/4))
+                = Some (idx, p).
+Proof.
+  destruct LocalMaxGlobal_octahedron_nonvacuous as [_ Hc].
+  apply (mesh_query_total (P ident (V 0 0 0)) octa_vs octa_conn); auto.
+  - cbn. lia.
+  - cbn. intros j Hj. decompose [or] Hj; subst; try contradiction; lia.
+Qed.
